@@ -519,6 +519,21 @@ std::string emit_mps(Tape &t, const Model &m, EmitStats &st) {
   std::string objname = t.chance(1, 3) ? "COST" : "obj";
   if (t.chance(1, 3)) { o += "OBJNAME\n " + objname + "\n"; st.features.insert("section:objname"); }
   comment();
+  // decoys: a second N row and columns that occur in that row only.  The reader keeps the first N row (or the
+  // OBJNAME one) as objective, ignores other N rows and drops -- with a warning -- columns used nowhere else,
+  // so the text denotes the same problem; every later column shifts down by one in the reader's tables.
+  std::string decoyrow = "ZNAUX", decoycol = "zdecoy";
+  bool decoy = t.chance(1, 4);
+  for (auto &r : m.rows) if (r.name == decoyrow) decoy = false;
+  for (auto &c : m.cols) if (c.name.rfind(decoycol, 0) == 0) decoy = false;
+  if (objname == decoyrow) decoy = false;
+  int decoy_at = decoy && m.m() > 0 ? (int)t.below((uint32_t)m.m() + 1) : 0;
+  std::set<int> decoy_before;    // a decoy column is written in front of these real columns
+  if (decoy) {
+    st.features.insert("decoy:second-N-row+unused-columns");
+    int nd = 1 + (int)t.below(2);
+    for (int k = 0; k < nd && m.n() > 0; k++) decoy_before.insert((int)t.below((uint32_t)m.n()));
+  }
   o += "ROWS\n";
   o += " N" + sep() + objname + "\n";
   // a ranged row is declared as L, G or E with a RANGES entry chosen accordingly
@@ -541,8 +556,10 @@ std::string emit_mps(Tape &t, const Model &m, EmitStats &st) {
       }
       if (r.range == 0 && rng[i] == 0) { hasrng[i] = false; decl[i] = 'E'; rhs[i] = r.rhs; }   // plain equation
     }
+    if (decoy && i == decoy_at) o += " N" + sep() + decoyrow + "\n";
     o += " " + std::string(1, decl[i]) + sep() + r.name + "\n";
   }
+  if (decoy && decoy_at >= m.m()) o += " N" + sep() + decoyrow + "\n";
   comment();
   o += "COLUMNS\n";
   bool inint = false;
@@ -557,8 +574,10 @@ std::string emit_mps(Tape &t, const Model &m, EmitStats &st) {
       st.features.insert("marker");
     }
     (void)bv_later;
+    if (decoy && decoy_before.count(j)) o += " " + decoycol + std::to_string(j) + sep() + decoyrow + sep() + num(Q(1 + j)) + "\n";
     std::vector<std::pair<std::string, Q>> ent;
     if (c.obj != 0) ent.push_back({objname, c.obj});
+    if (decoy && t.chance(1, 3)) ent.push_back({decoyrow, Q(3)});      // entries of real columns in the ignored N row
     for (int i = 0; i < m.m(); i++) { auto it = m.rows[i].a.find(j); if (it != m.rows[i].a.end()) ent.push_back({m.rows[i].name, it->second}); }
     if (ent.empty()) ent.push_back({objname, Q(0)});
     for (size_t k = 0; k < ent.size();) {
